@@ -170,11 +170,9 @@ def IntK.len : IntK → Int → Nat
   | .u8, x => u8Len x.toNat | .u16, x => u16Len x.toNat | .u32, x => u32Len x.toNat | .u64, x => u64Len x.toNat
   | .i8, x => u8Len (absArg x) | .i16, x => u16Len (absArg x) | .i32, x => u32Len (absArg x) | .i64, x => u64Len (absArg x)
 
-/-- `#idx.cbor_len(__ctx777)` in cbor_len.rs: `#idx` expands to an *unsuffixed* literal, whose
-    type falls back to `i32`; a literal ≥ 2^31 wraps (the lint is silent in macro output). -/
-def idxLen (idx : Nat) : Nat :=
-  let x : Int := if idx < 2147483648 then (idx : Int) else (idx : Int) - 4294967296
-  u32Len (absArg x)
+/-- `(#idx as u32).cbor_len(__ctx777)` in cbor_len.rs (since commit 36d21e9; before, the unsuffixed
+    literal `#idx` fell back to `i32` and an index ≥ 2^31 wrapped: finding KD1). -/
+def idxLen (idx : Nat) : Nat := u32Len idx
 
 /-- `Tag::new(t).cbor_len` -/
 def tagLen : Option Nat → Nat
@@ -327,12 +325,18 @@ def lenArray (ps : List (Piece Nat)) : Nat :=
     if !p.nil then (p.idx + 1, s.2 + ((p.idx - s.1) + tagLen p.tag + p.body)) else s) (0, 0)
   u64Len r.1 + r.2
 
-/-- map encoding: `#len.cbor_len()` of the *declared* field count, plus the present entries. -/
+/-- map encoding (since commit d85a3d2 the counters mirror the array branch: `__num777` counts the
+    non-nil, non-skipped fields, `__len777` sums their entries; before, the header was sized from
+    the *declared* field count: finding K2). -/
 def lenMapEntries : List (Piece Nat) → Nat
   | [] => 0
   | p :: ps => (if p.nil then 0 else idxLen p.idx + tagLen p.tag + p.body) + lenMapEntries ps
 
-def lenMap (ps : List (Piece Nat)) : Nat := u64Len ps.length + lenMapEntries ps
+def lenMapCount : List (Piece Nat) → Nat
+  | [] => 0
+  | p :: ps => (if p.nil then 0 else 1) + lenMapCount ps
+
+def lenMap (ps : List (Piece Nat)) : Nat := u64Len (lenMapCount ps) + lenMapEntries ps
 
 def lenFrame (enc : Encoding) (ps : List (Piece Nat)) : Nat :=
   match enc with
@@ -410,15 +414,16 @@ structure FDec where
 
 abbrev Slots := List (Option Val)
 
-/-- has the F5 repair (docs/F5-candidate.diff: remember the position where the field's item
-    starts and skip the *whole* item on an unknown variant) been applied to /repo?  The model
-    mirrors the code as it is; flip this constant together with the `fix:` commit. -/
-def f5Fixed : Bool := false
+/-- the F5 repair (commit 34b49ef in /repo, docs/F5-candidate.diff: remember the position where
+    the field's item starts and skip the *whole* item on an unknown variant) is in the code; the
+    constant is kept so that the pre-repair behaviour stays documented (`false` = the old code,
+    which called `skip()` from wherever the failed decode stopped). -/
+def f5Fixed : Bool := true
 
 /-- `match decode_fn(d, ctx) { Ok(v) => slot = Some(v), unknown_var_err, Err(e) => return Err(e) }`:
     `some v`: the slot becomes `Some(v)`; `none`: the unknown variant was skipped, the slot
     keeps its content.  `bs0` = the input at the start of the action (`__p779` of the repair);
-    the code as it is calls `skip()` from wherever the failed decode stopped. -/
+    before the repair the code called `skip()` from wherever the failed decode stopped. -/
 def catchVariant (fd : FDec) (bs0 : Bytes) : Dec (Option Val) := fun bs =>
   match fd.dec bs with
   | .ok v r => .ok (some v) r
